@@ -624,6 +624,12 @@ def retention_victim_is_oldest(ck, S, RID):
     first_end = is_call(victim, ("first", "constFirst", "front", "takeFirst"))
     if is_call(victim, ("at", "operator[]", "value")) or (isinstance(victim, dict) and victim.get("k") == "call" and victim.get("op") == "[]"):
         first_end = True
+    vv_ = skip_copies(victim) if isinstance(victim, dict) else None
+    if isinstance(vv_, dict) and vv_.get("k") == "call" and vv_.get("op") == "*" and vv_.get("args") and iterator_from_begin(ro, vv_["args"][0]) is not None:
+        first_end = True        # a front-to-back walk: the elements at the front of the list
+    if not first_end and not is_call(victim, ("last", "constLast", "back", "takeLast")):
+        ck.ob(RID, sitestr(ro, removes[0]), None, "which end of the ordered list retention removes from (%s) is not recognised" % describe(victim)[:40], key="removeOldFiles|victim-end")
+        return
     ordering(ck, S, first_end, RID, RID)
 
 
